@@ -982,7 +982,111 @@ class Analyzer:
         f = self.P.func(qualname)
         s = summarize(self.P, f)
         self._cache[qualname] = s
+        if not hasattr(self, "_splicing"):
+            self._splicing = set()
+        if qualname not in self._splicing:
+            self._splicing.add(qualname)
+            try:
+                self._splice_new_helpers(s)
+            finally:
+                self._splicing.discard(qualname)
         return s
+
+    # ---- helpers introduced after the rules were validated are read through (events, loops and return value spliced into the caller)
+    def _baseline_functions(self):
+        if not hasattr(self, "_basefuncs"):
+            import json
+            import os
+            try:
+                with open(os.path.join(os.path.dirname(os.path.abspath(__file__)), "baseline_vocab.json")) as fh:
+                    self._basefuncs = set(json.load(fh).get("__functions__", [])) or None
+            except (OSError, ValueError):
+                self._basefuncs = None
+        return self._basefuncs
+
+    def _splice_new_helpers(self, s: Summary):
+        base = self._baseline_functions()
+        if not base or s.func.qualname.startswith("<"):
+            return
+        out, repl = [], {}
+        for e in s.events:
+            out.append(e)
+            if e.kind != "call":
+                continue
+            c = strip(e["term"])
+            f = strip(c[1])
+            callee, selft = None, None
+            if head(f) == "glob" and f[1] in self.P.functions and f[1] not in base and f[1] != s.func.qualname:
+                callee = f[1]
+            elif head(f) == "attr" and strip(f[1]) == ("param", "self") and s.func.cls:
+                m = self.P.find_method(s.func.cls, f[2])
+                if m and m not in base and m != s.func.qualname:
+                    callee, selft = m, ("param", "self")
+            if callee is None or callee in self._splicing or self.P.functions[callee].parent is not None:
+                continue
+            try:
+                cs = self.summary(callee)
+            except AnalysisBroken:
+                continue
+            if cs.is_generator:
+                continue
+            bind = self.bind_call(cs, c, self_term=selft)
+            if bind is None:
+                continue
+            tagx = f"@{getattr(e.node, 'lineno', 0)}:{getattr(e.node, 'col_offset', 0)}"
+
+            def retag(x):
+                if not isinstance(x, tuple):
+                    return x
+                if len(x) == 4 and isinstance(x[0], str) and x[0].startswith("#") and isinstance(x[3], str):
+                    return (x[0], x[1], x[2], x[3] + tagx)
+                return tuple(retag(y) for y in x)
+
+            def conv(v):
+                if isinstance(v, tuple):
+                    return subst(retag(v), bind)
+                if isinstance(v, list):
+                    return [conv(y) for y in v]
+                if isinstance(v, dict):
+                    return {k: conv(y) for k, y in v.items()}
+                return v
+
+            def cctx(c0):
+                return Ctx(tuple(e.ctx.guards) + tuple((conv(g), pol) for g, pol in c0.guards), tuple(e.ctx.loops) + tuple(retag(l) for l in c0.loops),
+                           e.ctx.func, tuple(e.ctx.tries) + tuple(retag(t) for t in c0.tries))
+            for ce in cs.events:
+                out.append(Event(ce.kind, cctx(ce.ctx), ce.node, {k: conv(v) for k, v in ce.data.items()}, 0))
+            for lid in list(dict.keys(cs.loops)):
+                lp = cs.loops.raw(lid) if hasattr(cs.loops, "raw") else cs.loops[lid]
+                nl = LoopInfo(retag(lid), lp.kind, conv(lp.iterable), conv(lp.elem) if lp.elem is not None else None, lp.target, {k: conv(v) for k, v in lp.init.items()},
+                              {k: conv(v) for k, v in lp.update.items()}, cctx(lp.ctx), lp.node, conv(lp.tree) if isinstance(lp.tree, tuple) else lp.tree, lp.target_names,
+                              tuple((conv(c_), tuple((n, conv(v)) for n, v in vals)) for c_, vals in lp.breaks))
+                dict.__setitem__(s.loops, nl.lid, nl)
+            repl[e["term"]] = conv(cs.ret)
+        if not repl:
+            return
+
+        def rp(v):
+            if isinstance(v, tuple):
+                return subst(v, repl)
+            if isinstance(v, list):
+                return [rp(y) for y in v]
+            return v
+        for k, ev in enumerate(out):
+            if ev.kind == "call" and ev.data.get("term") in repl:
+                ev2 = Event(ev.kind, Ctx(tuple((rp(g), pol) for g, pol in ev.ctx.guards), ev.ctx.loops, ev.ctx.func, ev.ctx.tries), ev.node, dict(ev.data), k)
+            else:
+                ev2 = Event(ev.kind, Ctx(tuple((rp(g), pol) for g, pol in ev.ctx.guards), ev.ctx.loops, ev.ctx.func, ev.ctx.tries), ev.node, {kk: rp(v) for kk, v in ev.data.items()}, k)
+            out[k] = ev2
+        s.events[:] = out
+        s.ret = rp(s.ret)
+        s.env = {rp(k) if isinstance(k, tuple) else k: rp(v) for k, v in s.env.items()}
+        for lid in list(dict.keys(s.loops)):
+            lp = dict.__getitem__(s.loops, lid)
+            lp.iterable, lp.elem = rp(lp.iterable), rp(lp.elem) if lp.elem is not None else None
+            lp.init = {k: rp(v) for k, v in lp.init.items()}
+            lp.update = {k: rp(v) for k, v in lp.update.items()}
+            lp.ctx = Ctx(tuple((rp(g), pol) for g, pol in lp.ctx.guards), lp.ctx.loops, lp.ctx.func, lp.ctx.tries)
 
     def summarize_source(self, src: str, fname: str, modname: str = "pyrepseq.stats") -> Summary:
         """Summary of a *specification* function written as source text, resolved as if it lived in ``modname``."""
